@@ -23,6 +23,21 @@ import (
 // KNOWN_FINDINGS.txt live).
 var Root = "/verif"
 
+// Repo is the llir/llvm tree the monitor was built against: /repo for every
+// registered command. tools/seeds_regress_par.sh runs copies of this tree
+// against scratch worktrees with a seeded change applied, and points Root and
+// Repo at its copies through VERIF_ROOT / VERIF_REPO.
+var Repo = "/repo"
+
+func init() {
+	if v := os.Getenv("VERIF_ROOT"); v != "" {
+		Root = v
+	}
+	if v := os.Getenv("VERIF_REPO"); v != "" {
+		Repo = v
+	}
+}
+
 // Check describes the monitor of one property.
 type Check struct {
 	ID    string // property id, e.g. "C09"
